@@ -220,7 +220,7 @@ def task_points(a, env):
         for li, lam in enumerate(lams):
             # representatives: int coefficients for every scaling; for G2 additionally FQ-object
             # coefficients in the affine (z = 1) and in one scaled form
-            for fqc in ((False, True) if group == "E2" and li in (0, 1) else (False,)):
+            for fqc in ((False, True) if group == "E2" and li in (0, 1, 3, 4) else (False,)):
                 r.ev += 4
                 r.dk.add((label, Pm[0] if group == "E1" else Pm[0][0], li, fqc))
                 for what, exp, got in pt_case(group, Pm, lam, None, fqc):
